@@ -186,6 +186,12 @@ def run(ctx):
     ctx.floor("SMC kernel targets", n_targets, 4)
     ctx.floor("kernel bindings in mutate", n_bind, 3)
 
+    # the log|det dx/dz| term is the preconditioning transform's inverse log-Jacobian
+    from ..report import reuse
+    from . import c04
+    reuse(ctx, c04.run, ("C04.deriv", "C04.anti", "C04.acc", "C04.order"), "C05jac",
+          "preconditioning-transform rule shared with C04: the kernel target adds this log-Jacobian")
+
     # MCMC target
     lp = mcmc.methods.get("log_prob")
     if lp is None:
